@@ -171,7 +171,8 @@ class Replayer:
     def report(self, r):
         m = r["mismatch"]
         script = r["script"]
-        key = {"history": sha([script["files"], script["steps"]])}
+        key = {"history": sha([script["files"], script["steps"]]), "shape": (r.get("meta", {}).get("how") or {}).get("shape", 0),
+               "what": m.get("what", "")}
         kind = "panic in the incremental database" if m["incr"].startswith("PANIC") else "incremental != fresh"
         a, b = m["incr"].splitlines(), m["fresh"].splitlines()
         i = next((j for j in range(min(len(a), len(b))) if a[j] != b[j]), min(len(a), len(b)))
